@@ -277,6 +277,7 @@ func main() {
 	nseq := r.N(300, 6000)
 	opsTotal, changed := 0, 0
 	wstatMtimeAsked, wstatMtimeApplied, hostTimes, timeChecks := 0, 0, 0, 0
+	atimeChecks := 0
 	modesSeen := map[uint8]bool{}
 	okByKind := map[string]int{}
 	for i := 0; i < nseq; i++ {
@@ -414,6 +415,7 @@ func main() {
 				names = strings.Split(nd.Rel, "/")
 			}
 			cs := sx.List(caseL)
+			atimeBefore, atimeOK := hostAtime(filepath.Join(sb.Export, nd.Rel))
 			res, _ := exec(drv.Op{Kind: "walk", Fid: 60, NewFid: 61, Names: names})
 			if res == drv.SErr {
 				r.Fail("ufs.probe.walk", fmt.Sprintf("cannot walk a fresh fid to existing %q", nd.Rel), cs, nil)
@@ -422,6 +424,20 @@ func main() {
 			st, _ := exec(drv.Op{Kind: "stat", Fid: 61})
 			hp := filepath.Join(sb.Export, nd.Rel)
 			hi, herr := os.Lstat(hp)
+			if atimeAfter, ok := hostAtime(hp); ok && atimeOK && herr == nil && st != drv.SErr && len(sess.LastDirs) == 1 {
+				// the access time (whole seconds) the stat carries is the host's: the host is sampled before the
+				// walk and after the stat (lstat itself does not touch it), and anything between the two samples
+				// is accepted, so that an access-time update caused by the server's own reads cannot alarm
+				lo, hi2 := atimeBefore, atimeAfter
+				if lo > hi2 {
+					lo, hi2 = hi2, lo
+				}
+				got := sess.LastDirs[0].AccessTime.Unix()
+				atimeChecks++
+				if got < lo || got > hi2 {
+					r.Fail("ufs.probe.stat-atime", fmt.Sprintf("stat of %q through a fresh fid carries access time %d, host: %d..%d", nd.Rel, got, lo, hi2), cs, nil)
+				}
+			}
 			if herr == nil {
 				want := drv.InfoSexp(hi.Name(), hi.IsDir(), uint32(hi.Mode()&0o777), uint64(hi.Size()))
 				if sx.String(st) != sx.String(want) {
@@ -487,6 +503,7 @@ func main() {
 		sb.Remove()
 	}
 	r.Extra["mtime_comparisons"] = timeChecks
+	r.Extra["atime_comparisons"] = atimeChecks
 	r.Extra["host_side_chtimes"] = hostTimes
 	r.Extra["wstat_with_mtime_accepted"] = wstatMtimeAsked
 	r.Extra["wstat_with_mtime_applied_to_the_host"] = wstatMtimeApplied
@@ -502,4 +519,13 @@ func trunc(s string) string {
 		return s[:400] + "..."
 	}
 	return s
+}
+
+// hostAtime: the access time (seconds) of a host object, without following a final symlink
+func hostAtime(p string) (int64, bool) {
+	var st syscall.Stat_t
+	if err := syscall.Lstat(p, &st); err != nil {
+		return 0, false
+	}
+	return int64(st.Atim.Sec), true
 }
